@@ -49,6 +49,13 @@ class FEval:
             raise Untranslatable("f reads self.%s which __init__ does not assign" % e.attr)
         if isinstance(e.value, ast.Name) and e.attr == "size" and isinstance(self.env.get(e.value.id), list):
             return sp.Integer(len(self.env[e.value.id]))
+        if isinstance(e.value, ast.Name) and self.delegate is not None and (self.env is None or e.value.id not in self.env):
+            # an attribute of a module-level shared instance `_X = Cls()`: what Cls.__init__ assigns
+            cname = self.delegated_class(e.value)
+            if cname is not None:
+                cinfo, cattrs = self.delegate(cname)
+                if e.attr in cattrs:
+                    return cattrs[e.attr]
         return None
 
     def _ifexp(self, e, T):
